@@ -25,6 +25,7 @@ def dispatch(pid, tier):
         "C16": lambda: vft.run_c16(tier),
         "C05": lambda: impl.run_impl("C05", tier),
         "C11": lambda: scope.run_scope("C11", tier),
+        "C17": lambda: __import__("pv.attrs", fromlist=["run_attrs"]).run_attrs("C17", tier),
         "C19": lambda: scope.run_scope("C19", tier),
         "C12": lambda: __import__("pv.bounds", fromlist=["run_bounds"]).run_bounds("C12", tier),
         "C13": lambda: __import__("pv.compile", fromlist=["run_c13"]).run_c13(tier),
